@@ -1,2 +1,131 @@
 //! Type-level witnesses (compile_fail doc-tests, each with a compiling twin that differs only in
 //! the offending line). Run with `cargo +nightly test --doc` so that the error codes are checked.
+//! Each item is one witness; `<name>_fail` must be rejected with the stated error code and
+//! `<name>_twin` must compile - a witness that fails for an unrelated reason is thereby detected.
+
+/// C20/C23: a reference returned by a tracked function cannot be held across a write.
+/// ```compile_fail,E0502
+/// use salsa::Setter;
+/// let mut db = salsa::DatabaseImpl::new();
+/// let i = specimen::InTwo::new(&db, 1, String::from("x"));
+/// let r: &String = specimen::f_ref(&db, i);
+/// i.set_a(&mut db).to(2);
+/// println!("{r}");
+/// ```
+pub fn w1_ref_across_set_fail() {}
+
+/// ```
+/// use salsa::Setter;
+/// let mut db = salsa::DatabaseImpl::new();
+/// let i = specimen::InTwo::new(&db, 1, String::from("x"));
+/// let r: &String = specimen::f_ref(&db, i);
+/// println!("{r}");
+/// i.set_a(&mut db).to(2);
+/// ```
+pub fn w1_ref_across_set_twin() {}
+
+/// C20: an input setter needs `&mut db`.
+/// ```compile_fail,E0308
+/// use salsa::Setter;
+/// let mut db = salsa::DatabaseImpl::new();
+/// let i = specimen::InOne::new(&db, 1);
+/// i.set_a(&db).to(2);
+/// ```
+pub fn w2_setter_needs_mut_fail() {}
+
+/// ```
+/// use salsa::Setter;
+/// let mut db = salsa::DatabaseImpl::new();
+/// let i = specimen::InOne::new(&db, 1);
+/// i.set_a(&mut db).to(2);
+/// ```
+pub fn w2_setter_needs_mut_twin() {}
+
+/// C16/C20/C24: a database handle cannot be shared between threads by reference (it is `!Sync`);
+/// every thread needs its own clone.
+/// ```compile_fail,E0277
+/// let db = salsa::DatabaseImpl::new();
+/// std::thread::scope(|s| {
+///     s.spawn(|| { let _ = &db; });
+/// });
+/// ```
+pub fn w3_handle_not_sync_fail() {}
+
+/// ```
+/// let db = salsa::DatabaseImpl::new();
+/// std::thread::scope(|s| {
+///     let db2 = db.clone();
+///     s.spawn(move || { let _ = &db2; });
+/// });
+/// ```
+pub fn w3_handle_not_sync_twin() {}
+
+/// C23: a field reference cannot outlive the database borrow it was read through.
+/// ```compile_fail,E0597
+/// let r: &String = {
+///     let db = salsa::DatabaseImpl::new();
+///     let i = specimen::InTwo::new(&db, 1, String::from("x"));
+///     i.b(&db)
+/// };
+/// println!("{r}");
+/// ```
+pub fn w6_field_ref_outlives_db_fail() {}
+
+/// ```
+/// let db = salsa::DatabaseImpl::new();
+/// let r: &String = {
+///     let i = specimen::InTwo::new(&db, 1, String::from("x"));
+///     i.b(&db)
+/// };
+/// println!("{r}");
+/// ```
+pub fn w6_field_ref_outlives_db_twin() {}
+
+/// C02/C20: a synthetic write needs `&mut db`.
+/// ```compile_fail,E0596
+/// use salsa::Database;
+/// let db = salsa::DatabaseImpl::new();
+/// db.synthetic_write(salsa::Durability::LOW);
+/// ```
+pub fn w7_synthetic_write_needs_mut_fail() {}
+
+/// ```
+/// use salsa::Database;
+/// let mut db = salsa::DatabaseImpl::new();
+/// db.synthetic_write(salsa::Durability::LOW);
+/// ```
+pub fn w7_synthetic_write_needs_mut_twin() {}
+
+/// C24: the handle-local state makes a database handle `!Sync` (one writer per page).
+/// ```compile_fail,E0277
+/// fn assert_sync<T: Sync>() {}
+/// assert_sync::<salsa::DatabaseImpl>();
+/// ```
+pub fn w8_database_not_sync_fail() {}
+
+/// ```
+/// fn assert_send<T: Send>() {}
+/// assert_send::<salsa::DatabaseImpl>();
+/// ```
+pub fn w8_database_not_sync_twin() {}
+
+/// C20/C23: a tracked struct handle carries `'db` and cannot be used after a write.
+/// ```compile_fail,E0502
+/// use salsa::Setter;
+/// let mut db = salsa::DatabaseImpl::new();
+/// let i = specimen::InTwo::new(&db, 1, String::from("x"));
+/// let t = specimen::f_make(&db, i);
+/// i.set_a(&mut db).to(2);
+/// let _ = t.id1(&db);
+/// ```
+pub fn w9_tracked_handle_across_write_fail() {}
+
+/// ```
+/// use salsa::Setter;
+/// let mut db = salsa::DatabaseImpl::new();
+/// let i = specimen::InTwo::new(&db, 1, String::from("x"));
+/// let t = specimen::f_make(&db, i);
+/// let _ = t.id1(&db);
+/// i.set_a(&mut db).to(2);
+/// ```
+pub fn w9_tracked_handle_across_write_twin() {}
